@@ -1,21 +1,23 @@
 /-
   C06 — noisy simulation is physical, backend-independent and switchable.
 
-  Property theorems only (lemmas in Proofs/Noise.lean).  The model (Model/Noise.lean) mirrors
-  `CompilerBase.compile`, the two `_apply_additional_noise`, the three additive noise models on both representations and
-  `MixedStabilizer.reduce()`; it is tied to /repo by the correspondence run of harness/c06.py.
+  Property theorems only (lemmas in Proofs/Noise.lean, Proofs/Channel.lean, Proofs/MixtureDM*.lean).  The model
+  (Model/Noise.lean) mirrors `CompilerBase.compile`, the two `_apply_additional_noise`, the three additive noise models on
+  both representations and `MixedStabilizer.reduce()`; it is tied to /repo by the correspondence run of harness/c06.py.
 
   What is proved for all circuits / sizes:  clause (a) — the placement decision tree; clause (b) — weight bookkeeping of
-  the mixture, validity of every branch; the switch-off part of clause (d).
-  What is *not* a theorem: clause (c) (density matrix = Σ p_k ρ(T_k)) needs the tensor-product lifting of Pauli
-  conjugation to n qubits (cited mathematics); the driver evaluates both sides exactly on every correspondence input
-  (n ≤ 4).  It is moreover *false* for the code as it stands on circuits that measure after noise with branch-dependent
-  outcomes (known finding, see `per_branch_measurement_differs` below).  Positivity of the floating-point
-  matrix is checked by the oracle only.
+  the mixture, validity of every branch; clause (c) for measurement-free circuits — the density matrix of the exact
+  density-matrix model equals `Σ_k p_k ρ(T_k)` of the stabilizer model's mixture, for every number of qubits (Hilbert-space
+  level and, through the embedding `Mat → Matrix (Bits n) (Bits n) ℂ`, entry by entry for the executable models), with its
+  consequences: trace = product of survival probabilities, positive semidefinite; the switch-off part of clause (d).
+  What is *not* a theorem: clause (c) after measurements — it is *false* for the code as it stands on circuits that measure
+  after noise with branch-dependent outcomes (known finding, see `per_branch_measurement_differs` below); it is proved
+  for measurements on which all branches agree.  Positivity of the floating-point matrix is checked by the oracle only.
 -/
 import GraphiqModel.Proofs.Noise
 import GraphiqModel.Proofs.Channel
 import GraphiqModel.Proofs.GateTable
+import GraphiqModel.Proofs.MixtureDMFinal
 namespace Graphiq.C06
 open Graphiq Graphiq.Noise Graphiq.DM
 
@@ -103,22 +105,119 @@ theorem every_branch_valid (ns : Bool) (ne np nc : Nat) (det : Bool) (ops : List
     (hw : ∀ op ∈ ops, OpWF (ne + np) np op) (s : StabSt) (h : compileStab ns ne np nc det ops = .ok s) :
     ∀ x ∈ s.mix, x.2.n = ne + np ∧ x.2.Valid := compileStab_ok ns ne np nc det ops hw s h
 
-/-! ## (c) Density matrix = Σ p_k ρ(T_k): statement kept, not proved for all n -/
+/-! ## (c) Density matrix = Σ p_k ρ(T_k), measurement-free circuits, every number of qubits -/
 
-/-- clause (c) as it would read for measurement-free circuits (where the per-branch-measurement finding does not apply).  Not proved: it
-    needs `ρ(P·T) = P ρ(T) P†` for every n (tensor-product lifting, cited mathematics).  The driver evaluates both sides
-    exactly on every correspondence input (`want=mixdm`, n ≤ 4). -/
+section clause_c
+open Graphiq.MixDM Graphiq.Hilbert Matrix
+
+/-- **(c), Hilbert-space level, stabilizer side.**  For a measurement-free circuit on existing qubits (control ≠ target) with
+    depolarizing probabilities in `[0,1]` — any Pauli errors, any loss rates, either placement, noise simulation on or off —
+    whenever `StabilizerCompiler.compile` returns the mixture `[(w_k, T_k)]`, the placement tree produced a trace `tr` and
+    `Σ_k w_k ρ(T_k) = runH tr |0…0⟩⟨0…0|`: the initial state pushed, action by action, through what the density-matrix backend
+    applies (`U ρ U†` for a gate, `P ρ P†` for a Pauli error, `(1−p) ρ + p/3 (XρX + YρY + ZρZ)` for depolarizing noise,
+    `(1−λ) ρ` for photon loss).  Covers the `factor > 0` filter and `reduce()` as coded.  `2^n × 2^n` complex matrices, all n. -/
+theorem mixture_is_hilbert_run (ns : Bool) (ne np nc : Nat) (det : Bool) (ops : List COp)
+    (hw : ∀ op ∈ ops, OpOK (ne + np) np op) (s : StabSt) (h : compileStab ns ne np nc det ops = .ok s) :
+    ∃ tr, compileTrace ns .stab np ops = .ok tr ∧
+      mixRho (ne + np) s.mix = runH np (ne + np) ops.toArray tr (rho0 (ne + np)) ∧ MixN (ne + np) s.mix :=
+  compileStab_mixRho ns ne np nc det ops hw s h
+
+/-- **(c), Hilbert-space level, density-matrix side.**  On the same circuits, whenever the exact density-matrix model
+    (`Mat` over ℚ[i]; Kronecker-built gate matrices, `apply_unitary` with `hermitianize`, `apply_channel`, tabulation — as
+    coded) returns, its matrix, read as a complex matrix on bit strings (row / column `i` ↔ the big-endian bit string of
+    `i`), is the same Hilbert-space run of its placement trace, has size `2^n` and is Hermitian. -/
+theorem dm_is_hilbert_run (ns : Bool) (ne np nc : Nat) (det : Bool) (ops : List COp)
+    (hw : ∀ op ∈ ops, OpOK (ne + np) np op) (d : DmSt) (h : compileDM ns ne np nc det ops = .ok d) :
+    ∃ tr, compileTrace ns .dm np ops = .ok tr ∧
+      ∃ ρ, d.ρ = some ρ ∧ toC (ne + np) ρ = runH np (ne + np) ops.toArray tr (rho0 (ne + np)) ∧ ρ.n = 2 ^ (ne + np) ∧
+        (toC (ne + np) ρ)ᴴ = toC (ne + np) ρ :=
+  compileDM_toC ns ne np nc det ops hw d h
+
+/-- on measurement-free operations both backends walk the same placement trace -/
+theorem same_trace_both_backends (ns : Bool) (np : Nat) (ops : List COp) (h : ∀ op ∈ ops, MFree op) :
+    compileTrace ns .dm np ops = compileTrace ns .stab np ops := traceGo_backend ns np ops 0 h
+
+/-- the single steps behind `mixture_is_hilbert_run`, each for every `n`: a gate on every branch, … -/
+theorem gate_on_every_branch (n : Nat) (g : Gate) (hg : g.WF n) (m : Mixture) (hm : MixN n m) :
+    mixRho n (Mix.mapTab (fun t => t.map g.act) m) = conjH (gateMat n g) (mixRho n m) := mixRho_mapGate n g hg m hm
+/-- … depolarizing branching with its filter, weight check and `reduce()`, … -/
+theorem depolarizing_on_mixture (n q : Nat) (hq : q < n) (p : Rat) (hp0 : 0 ≤ p) (hp1 : p ≤ 1) (m m' : Mixture) (hm : MixN n m)
+    (h : Mix.depolarize p q m = .ok m') : mixRho n m' = depolH n q p (mixRho n m) :=
+  mixRho_depolarize n q hq p hp0 hp1 m m' hm h
+/-- … a Pauli error, … -/
+theorem pauli_error_on_mixture (n q : Nat) (hq : q < n) (k : PauliK) (m m' : Mixture) (hm : MixN n m)
+    (h : Mix.pauliError k q m = .ok m') : mixRho n m' = pauliH n q k (mixRho n m) := mixRho_pauliError n q hq k m m' hm h
+/-- … photon loss, … -/
+theorem photon_loss_on_mixture (n : Nat) (r : Rat) (m : Mixture) :
+    mixRho n (Mix.photonLoss r m) = (((1 - r : ℚ)) : ℂ) • mixRho n m := mixRho_photonLoss n r m
+/-- … and **`reduce()` is correct**: merging branches whose tableaux are `__eq__` — with the pop-while-enumerating loop as
+    coded — never changes the state the mixture stands for -/
+theorem reduce_keeps_state (n : Nat) (m : Mixture) (hm : MixN n m) : mixRho n (Mix.reduce m.length m) = mixRho n m :=
+  mixRho_reduce n m.length m (Nat.le_refl _) hm
+
+/-- the executable `mixtureDensity` (what the driver evaluates) is `Σ_k w_k ρ(T_k)` -/
+theorem mixtureDensity_is_mixRho (n : Nat) (m : Mixture) (hm : MixN n m) :
+    toC n (mixtureDensity n m) = mixRho n m ∧ (mixtureDensity n m).n = 2 ^ n := toC_mixtureDensity n m hm
+
+/-- clause (c) for measurement-free circuits (where the per-branch-measurement finding does not apply): the operations address
+    existing qubits, control ≠ target (what `CircuitDAG` guarantees; `dm_equals_mixture_needs_existing_qubits` shows the
+    executable models do disagree without it), depolarizing probabilities lie in `[0,1]` (the property's quantifier). -/
 def dm_equals_mixture_statement : Prop :=
   ∀ (ne np nc : Nat) (det : Bool) (ops : List COp) (s : StabSt) (d : DmSt) (ρ : Mat),
-    (∀ op ∈ ops, op.kind.isOneQubit = true ∨ op.kind.isCtrlPair = true) →
+    (∀ op ∈ ops, OpOK (ne + np) np op) →
     compileStab true ne np nc det ops = .ok s → compileDM true ne np nc det ops = .ok d → d.ρ = some ρ →
     Mat.EqOn ρ (mixtureDensity (ne + np) s.mix)
 
-/-- **bounded base case of (c)** (finite table, kernel-checked — *not* the general statement): on 1 qubit, for all 8 signed Pauli
-    matrices, and on 2 qubits, for the 8 signed one-site generators, every gate matrix of the density-matrix model
-    (H, P, P†, X, Y, Z on each qubit; CNOT, CZ in both directions) is unitary and conjugates the Pauli matrix into exactly the
-    signed Pauli matrix of the row that the stabilizer model's tableau gate produces.  The lifting to n qubits is cited
-    mathematics (DESIGN §7). -/
+/-- **(c): the stabilizer mixture is the density matrix**, every measurement-free noisy circuit, every number of qubits, entry
+    by entry in exact arithmetic. -/
+theorem dm_equals_mixture : dm_equals_mixture_statement :=
+  fun ne np nc det ops s d ρ hw hs hd hρ => MixDM.dm_equals_mixture true ne np nc det ops hw s d ρ hs hd hρ
+
+/-- the same with noise simulation switched off (then both are the noiseless state) or on -/
+theorem dm_equals_mixture_any_switch (ns : Bool) (ne np nc : Nat) (det : Bool) (ops : List COp)
+    (hw : ∀ op ∈ ops, OpOK (ne + np) np op) (s : StabSt) (d : DmSt) (ρ : Mat)
+    (hs : compileStab ns ne np nc det ops = .ok s) (hd : compileDM ns ne np nc det ops = .ok d) (hρ : d.ρ = some ρ) :
+    Mat.EqOn ρ (mixtureDensity (ne + np) s.mix) := MixDM.dm_equals_mixture ns ne np nc det ops hw s d ρ hs hd hρ
+
+/-- the hypothesis "existing qubits" cannot be dropped *for the models*: a Pauli error addressed to qubit 5 of a one-qubit
+    register is the identity on the tableau (no such column) but `get_one_qubit_gate(1, 5, X)` returns `X` itself.
+    (`CircuitDAG` never produces such an operation.) -/
+theorem dm_equals_mixture_needs_existing_qubits :
+    (match compileDM true 1 0 0 true [{ kind := .identity, r1 := 5, t1 := .e, n0 := .pauli .X true }],
+           compileStab true 1 0 0 true [{ kind := .identity, r1 := 5, t1 := .e, n0 := .pauli .X true }] with
+      | .ok { ρ := some ρ, .. }, .ok s => ρ.e 1 1 == (⟨1, 0⟩ : GQ) && (mixtureDensity 1 s.mix).e 0 0 == (⟨1, 0⟩ : GQ)
+      | _, _ => false) = true := by decide +kernel
+
+/-! ### non-vacuity of (c): depolarizing noise + Pauli error + photon loss on a two-qubit circuit -/
+
+/-- `H(e0)` with depolarizing noise after it, then `CNOT(e0 → p0)` with a `Z` error before it on the control and photon loss
+    after it on the target -/
+def exCircuit : List COp :=
+  [ { kind := .h, r1 := 0, t1 := .e, n0 := .depol (1/3) true },
+    { kind := .cnot, r1 := 0, t1 := .e, r2 := 0, t2 := .p, n0 := .pauli .Z false, n1 := .loss (1/4) true } ]
+
+example : ∀ op ∈ exCircuit, OpOK (1 + 1) 1 op := by
+  intro op h
+  simp only [exCircuit, List.mem_cons, List.not_mem_nil, or_false] at h
+  rcases h with rfl | rfl
+  · exact ⟨⟨by decide, fun h => by simp [Kind.isCtrlPair, Kind.isClassicalCtrl] at h, fun h => by simp [Kind.isCtrlPair] at h⟩,
+      Or.inl rfl, ⟨by norm_num, by norm_num⟩, trivial⟩
+  · exact ⟨⟨by decide, fun _ => by decide, fun _ => by decide⟩, Or.inr rfl, trivial, trivial⟩
+
+/-- both compilers return on it: four branches, trace `3/4`, and (as the theorem says) equal matrices -/
+example :
+    (match compileDM true 1 1 0 true exCircuit, compileStab true 1 1 0 true exCircuit with
+      | .ok { ρ := some ρ, .. }, .ok s =>
+          ρ.trace == (⟨3/4, 0⟩ : GQ) && s.mix.length == 4 && Mat.beq ρ (mixtureDensity 2 s.mix)
+      | _, _ => false) = true := by decide +kernel
+
+end clause_c
+
+/-- **kernel-evaluated cross-check of the executable gate matrices** (finite table; superseded by `dm_equals_mixture`, kept as an
+    independent evaluation of the compiled definitions): on 1 qubit, for all 8 signed Pauli matrices, and on 2 qubits, for the
+    8 signed one-site generators, every gate matrix of the density-matrix model (H, P, P†, X, Y, Z on each qubit; CNOT, CZ in
+    both directions) is unitary and conjugates the Pauli matrix into exactly the signed Pauli matrix of the row that the
+    stabilizer model's tableau gate produces. -/
 theorem dm_gates_match_tableau_gates_small :
     allGateChecks 1 (allRows 1) = true ∧ allGateChecks 2 (genRows 2) = true := ⟨gates_agree_n1, gates_agree_n2⟩
 
